@@ -88,7 +88,7 @@ def decVariant (pool : Array Oracle) (s : String) : Option Variant :=
   match s.splitOn ";" with
   | [fls, avail, opts, rows, cols] =>
     match fls.splitOn " ", opts.splitOn " " with
-    | [lr, mc, fr, nc, fneg, stw], [bx, sh, sf, se, sl, leading, pt, pr, pb, pl, pe, cp, ex, w, mw, ti, ca] =>
+    | [lr, mc, fr, nc, fneg, stw, fcz], [bx, sh, sf, se, sl, leading, pt, pr, pb, pl, pe, cp, ex, w, mw, ti, ca] =>
       match lookupBox bx with
       | none => none
       | some box =>
@@ -113,7 +113,7 @@ def decVariant (pool : Array Oracle) (s : String) : Option Variant :=
             co.2.length == co.1.cells.length + (if showHeader then 1 else 0) + (if showFooter then 1 else 0))
           if !okShape then none
           else
-            let flags : Flags := { leadingRepeat := decBool lr, minWidthCapsExpand := decBool mc, fixedRawMaximum := decBool fr, noColumnsAsserts := decBool nc, flexNegative := decBool fneg, staleTableWidth := decBool stw }
+            let flags : Flags := { leadingRepeat := decBool lr, minWidthCapsExpand := decBool mc, fixedRawMaximum := decBool fr, noColumnsAsserts := decBool nc, flexNegative := decBool fneg, staleTableWidth := decBool stw, flexClampZero := decBool fcz }
             some { fl := flags, avail := decInt avail, t := t,
                       colOracles := colsL.map (·.2), titleO, captionO,
                       wf := colsL.all (fun co => co.1.cells.length ≤ rowsL.length) }
